@@ -1,3 +1,5 @@
+//go:debug randseednop=0
+
 // Package p2psim: two endpoints and a man in the middle (property C20).
 //
 // stream mode: two real SecretConnections over a simulated link. Both sides write a known byte
